@@ -19,10 +19,10 @@ CLAIMS = {
                 text='All 0/1 patterns n<=4 x all n! forced pivot orders x thresholds x panel/relax/supernode/blocking grid x kernels (built-in, OpenBLAS) x 4 precisions; '
                      'residual |PrAPc-LU| <= gamma_n|L||U|, multiplier bound and the pivot policy (replayed on a reference elimination with tie bands) on every run with info=0.', ref='5 C02'),
     'C03': dict(cat='model_checking', engine='mcsched', tech='stateless preemption-bounded schedule exploration (CHESS-style DFS) of the real factorization under a controlled scheduler, with event monitors; explicit-state search of the scheduler protocol (Engine P)',
-                text='Every interleaving with at most k preemptions (k per job, 1-3) of the hooked protocol points of the real p?gstrf on a catalogue of n<=8 matrices that force pipelining, parallel leaves, supernodes spanning panels, relaxed supernodes, off-diagonal pivots and double pruning, with 2-4 threads; monitors check on every event that no update uses an unreleased/unpivoted column, no update is applied twice, nobody alters a supernode another thread is reading, and the scheduler hand-out invariant (single busy chain, bcol) on the real structures; the returned factors must satisfy the C02 bound.', ref='5 C03',
+                text='Every interleaving with at most k preemptions (k per job, 1-3) of the hooked protocol points of the real p?gstrf on a catalogue of n<=8 matrices that force pipelining, parallel leaves, supernodes spanning panels, relaxed supernodes, off-diagonal pivots and double pruning, with 2-4 threads; monitors check on every event that no update uses an unreleased/unpivoted column, no update is applied twice, nobody alters a supernode another thread is reading, and the scheduler hand-out invariant (single busy chain, bcol) on the real structures; the returned factors must satisfy the C02 bound. In addition Engine P (engines/mcproto) searches breadth-first ALL reachable states of the scheduler protocol - the real pxgstrf_scheduler / ParallelInit / pxgstrf_relax_snode / pxgstrf_mark_busy_descends code called on shadow structures, worker steps from proto_model.h - for every postordered elimination forest with n<=6 (P=2) / n<=5 (P=3) (thorough: 8 / 7), panel sizes 1-6, relax 1-3, checking invariants I1-I7 (dependences of a handed-out panel are done or form the single busy chain, no double hand-out, no lost wake-up, progress rank decreases). The model is bound to the code in both directions: its transitions call the real scheduler functions, and every execution Engine S explores of the real workers is replayed event by event on the model (traces_validated_against_impl, divergence = machinery error).', ref='5 C03, 0.4, 10.2',
                 note='Trusted base: the baton scheduler and monitors in engines/mcsched, the hook lines in /repo (add-only, guard SLU_MT_VERIF), ASan. Sequential consistency assumed. Bounds: catalogue shapes n<=8, preemption bound per job as reported in the evidence.'),
     'C04': dict(cat='model_checking', engine='mcsched', tech='stateless preemption-bounded schedule exploration of the real factorization; deadlock = no enabled thread under the controlled scheduler',
-                text='Same exploration as C03. In every execution: the scheduler never finds all threads blocked (deadlock / lost wake-up), no execution exceeds the step horizon (livelock), each panel is handed out once, each column begun/pivoted/released once, tasks_remain equals the number of untaken panels at every scheduler return, the queue stays inside its n slots, every created thread is joined before the driver returns; includes singular inputs and more threads than columns.', ref='5 C04',
+                text='Same exploration as C03 (Engine S schedules + Engine P reachable-state search with deadlock-freedom, lost-wake-up and rank/termination checks in every model state). In every execution: the scheduler never finds all threads blocked (deadlock / lost wake-up), no execution exceeds the step horizon (livelock), each panel is handed out once, each column begun/pivoted/released once, tasks_remain equals the number of untaken panels at every scheduler return, the queue stays inside its n slots, every created thread is joined before the driver returns; includes singular inputs and more threads than columns.', ref='5 C04',
                 note='Trusted base: as C03. The fruitless-poll rule parks a poller until the task queue changes; it is part of the scheduler model.'),
     'C05': dict(cat='exploration', tech='bounded-exhaustive enumeration under ASan/UBSan with a slot-bound monitor on every L-value allocation (source hooks)',
                 text='The C02 enumeration (all patterns n<=4, every forced pivot order = adversarial pivot sequences, orderings 0..3, static/dynamic supernode storage) runs under ASan+UBSan; '
@@ -95,6 +95,7 @@ def main():
             'add_only': True,
         },
         'engines': [
+            {'name': 'mcproto', 'path': 'engines/mcproto', 'serves_properties': ['C03', 'C04'], 'kind_free_text': 'Engine P: explicit-state breadth-first search of the panel-scheduler protocol over all postordered forests; transitions call the real scheduler functions on shadow structures; Engine S replays every explored execution on this model'},
             {'name': 'mcsched', 'path': 'engines/mcsched', 'serves_properties': ['C01', 'C02', 'C03', 'C04', 'C05', 'C09'],
              'kind_free_text': 'Engine S: stateless preemption-bounded DFS over thread interleavings of the real factorization (baton scheduler over renamed pthread calls + source hooks), monitors and end-of-execution oracles in every execution, crash-resumable'},
             {'name': 'mcexpert', 'path': 'engines/mcexpert', 'serves_properties': ['C07', 'C11', 'C12', 'C13'], 'kind_free_text': 'Engine Q: expert-driver enumeration (trans x storage x fact x equed x scalings) against long-double / quad references'},
